@@ -70,6 +70,9 @@ end exec
 section math
 variable {N : ℕ} {ζ : ℂ}
 
+theorem dftAt_tw (hζ1 : ζ ^ N = 1) (x : ℕ → ℂ) (k : ℕ) : dftAt (tw ζ) N x k = D ζ N x k :=
+  dftAt_D hζ1 x k
+
 theorem spec_eq (hζ1 : ζ ^ N = 1) (n : ℕ) (x : ℕ → ℂ) (k : ℕ) :
     spec (tw ζ) N n x k = D ζ N (padded n x) k := dftAt_D hζ1 _ _
 
@@ -77,7 +80,7 @@ theorem spec_eq (hζ1 : ζ ^ N = 1) (n : ℕ) (x : ℕ → ℂ) (k : ℕ) :
 theorem dft_parseval (hN : 0 < N) (hζ : IsPrimitiveRoot ζ N) (hc : (starRingEnd ℂ) ζ = ζ⁻¹)
     (x : ℕ → ℂ) :
     ∑ k ∈ range N, (sqmag (dftAt (tw ζ) N x k) : ℝ) = N * ∑ j ∈ range N, (sqmag (x j) : ℝ) := by
-  simp only [sqmag_eq, tw, dftAt_D hζ.pow_eq_one]
+  simp only [sqmag_eq, dftAt_tw hζ.pow_eq_one]
   exact parseval_real hN hζ hc x
 
 /-- zero padding (NFFT ≥ n) does not change the energy seen by the transform -/
